@@ -112,7 +112,13 @@ func caseEnv(cs *Case, at int) string {
 		if at > 0 && at <= len(seq) {
 			seq = seq[:at]
 		}
-		return "[calls: " + seqDesc(seq) + "]"
+		d := ""
+		for c, x := range cs.C.Dep {
+			if x != 0 {
+				d += fmt.Sprintf(" f(c%d) calls the memoized function on c%d;", c+1, x)
+			}
+		}
+		return "[" + strings.TrimSpace(d+" calls: "+seqDesc(seq)) + "]"
 	}
 	return ""
 }
@@ -149,7 +155,13 @@ func caseSize(cs *Case, at int) []int {
 		for i := 0; i < n; i++ {
 			code = code*8 + cs.I.Seq[i].C*2 + cs.I.Seq[i].Rep
 		}
-		return []int{n, code}
+		nd := 0
+		for _, x := range cs.C.Dep {
+			if x != 0 {
+				nd++
+			}
+		}
+		return []int{nd, n, code}
 	}
 	return nil
 }
